@@ -2886,20 +2886,25 @@ impl Lexer<'_> {
                         // Quoted char
 
                         // First, store the literal section before the escape percent
-                        let (new_start, new_end) =
+                        let (new_start, _) =
                             self.add_string_literal_from_src(last_lit_end_byte_offset, None);
                         lit_start_idx = min(lit_start_idx, new_start);
-                        lit_end_idx = new_end;
 
                         // Now advance the cursor past the percent
                         self.cursor.advance();
+                        let quoted_char_byte_offset = self.cur_byte_offset();
 
-                        // And update the last byte offset - this will ensure that the
-                        // following escaped char will be included in the next literal section
-                        last_lit_end_byte_offset = self.cur_byte_offset();
-
-                        // Finally, advance the cursor past the quoted char
+                        // Then advance the cursor past the quoted char and store it right away.
+                        // This way the literal is never empty after an escape, even if
+                        // the escape is the very first thing in the string. An empty
+                        // literal would be taken as "no payload needed"
                         self.cursor.advance();
+                        let (_, new_end) =
+                            self.add_string_literal_from_src(quoted_char_byte_offset, None);
+                        lit_end_idx = new_end;
+
+                        // And update the last byte offset
+                        last_lit_end_byte_offset = self.cur_byte_offset();
                         continue;
                     }
 
